@@ -44,9 +44,9 @@ ACTIONS = {"CallSend", "CallAuth", "ConnOK", "ConnFail", "Deliver", "Lose", "Pee
            "CancelRead", "TimerAuth", "CancelOther", "TimerSleep"}
 
 
-def gen(ctx: Ctx, ver, retries, *, name, simulate=None, depth=None, seed=None, nxt="GNext", limit=None, timeout=1800, **kw):
+def gen(ctx: Ctx, ver, retries, *, name, simulate=None, depth=None, seed=None, nxt="GNext", limit=None, timeout=1800, clean_auth_first=False, **kw):
     """TLC-generated scenarios: list of behaviours, each a list of steps, each a list of predicted events."""
-    cfg = (f"INIT GInit\nNEXT {nxt}\n" + consts(ver, retries, **kw) + "CONSTRAINT GEmit\nCHECK_DEADLOCK FALSE\n")
+    cfg = (f"INIT GInit\nNEXT {nxt}\n" + consts(ver, retries, **kw) + ("CONSTRAINT CleanAuthFirst\n" if clean_auth_first else "") + "CONSTRAINT GEmit\nCHECK_DEADLOCK FALSE\n")
     r = run_tlc("Gen_LanSession", cfg, name=name, workers=1, timeout=timeout, heap="6g",
                 simulate=simulate, depth=depth, seed=seed)
     ctx.checker_cmds.append(r.cmd)
@@ -125,6 +125,14 @@ def replay(scn, *, ver, retries, life=True, rng=None, seed=0, target="lan"):
             except RuntimeError as ex:
                 stuck = f"step {k + 1} ({a}) cannot be performed on the real object: {ex}"
                 break
+        if s.task is not None:
+            # the model predicted that the last call is over, the real one is still running: let it run to its end in a plain
+            # environment so that the monitor sees the consequences (the extra steps are still LanSession environment actions)
+            stuck = stuck or "the real call did not end where the model's did"
+            try:
+                s.settle()
+            except RuntimeError:
+                pass
     finally:
         s.close()
     return {"steps": s.steps, "events": s.trace, "stuck": stuck, "predicted": scn}
